@@ -6,6 +6,7 @@ import (
 	"bufio"
 	"bytes"
 	"net"
+	"sync"
 	"time"
 
 	"go.uber.org/atomic"
@@ -253,3 +254,38 @@ func (g *Gossip) VerifSeed(d digest) { g.state.ApplyDigest(d) }
 
 // VerifCompactLocal runs a local compaction with the given threshold.
 func (g *Gossip) VerifCompactLocal(threshold int) { g.state.CompactLocal(threshold) }
+
+// VerifHookFD is a failure detector whose answers the test sets and whose
+// SuspicionLevel calls the test can observe (to own the schedule at that point).
+type VerifHookFD struct {
+	mu     sync.Mutex
+	Levels map[string]float64
+	Hook   func(point string)
+}
+
+func (f *VerifHookFD) Report(string) {}
+func (f *VerifHookFD) Remove(string) {}
+func (f *VerifHookFD) SuspicionLevel(id string) float64 {
+	if f.Hook != nil {
+		f.Hook("suspicion:" + id)
+	}
+	f.mu.Lock()
+	defer f.mu.Unlock()
+	return f.Levels[id]
+}
+func (f *VerifHookFD) Set(id string, level float64) {
+	f.mu.Lock()
+	defer f.mu.Unlock()
+	if f.Levels == nil {
+		f.Levels = map[string]float64{}
+	}
+	f.Levels[id] = level
+}
+
+// VerifNewStateFD builds a bare cluster state around the given failure detector.
+func VerifNewStateFD(id, addr string, fd *VerifHookFD, w Watcher) *clusterState {
+	if w == nil {
+		w = newNopWatcher()
+	}
+	return newClusterState(id, addr, fd, newMetrics(), w)
+}
